@@ -643,11 +643,11 @@ theorem C18_extension_refuses_iff (k : Checker) (h : k.spike ≤ k.limit) (hl : 
   C18_refuse_iff k h hl gs gh s r
 
 
-/-- **forwarding does not depend on the item count**: while not refusing, a payload with zero items
+/-- **forwarding does not depend on the item count** (a fact the model *states* — `helperWrap` has no branch on
+the count — and the differential backs: zero-item shapes of all four signals): while not refusing, a payload with zero items
 (completely empty, resource-only, scope-only) reaches the next consumer like any other and downstream's
 result — an error included — is what the caller gets; the helper has no "nothing left, skip" shortcut -/
-theorem C18_consume_forwards_empty {α : Type} (sig : Sig) (items : α → Nat) (payload : α) (next : α → Res)
-    (_h0 : items payload = 0) :
+theorem C18_consume_forwards_empty {α : Type} (sig : Sig) (items : α → Nat) (payload : α) (next : α → Res) :
     (consumeFull sig items false payload next).forwarded = some payload ∧
     (consumeFull sig items false payload next).res = next payload :=
   ⟨(C18_consumeFull_accepting sig items payload next).1, (C18_consumeFull_accepting sig items payload next).2.1⟩
@@ -723,5 +723,50 @@ theorem C18_model_passes_checkMode (k : Checker) (gs gh : Int) (s : Sys) :
     checkMode s.st.mustRefuse (s.step k gs gh .start).st.mustRefuse 0 = [] ∧
     checkMode s.st.mustRefuse (s.step k gs gh .shutdown).st.mustRefuse 0 = [] := by
   constructor <;> simp [checkMode, Sys.step]
+
+
+/-! ## audit follow-up: first clause over configurations; counts per window -/
+
+/-- **the property's first clause as one statement over configurations**: for every configuration accepted by
+`Validate` (fixed or percentage; `uint32` fields; total memory below 2^57 bytes on the percentage path), every
+limiter state and every reading, after the check the limiter refuses iff the latest measurement (post-GC
+exactly when a GC ran) is at or above limit − spike of the checker built from that configuration -/
+theorem C18_first_clause (c : Config) (total : Nat) (hv : validate c = 0) (hwf : c.wf) (ht : total < 2 ^ 57) (s : LState) (r : Reading) :
+    ((check (mkChecker c total) c.gcSoft c.gcHard s r).st.mustRefuse = true ↔
+      (check (mkChecker c total) c.gcSoft c.gcHard s r).latest ≥ (mkChecker c total).limit - (mkChecker c total).spike) ∧
+    (check (mkChecker c total) c.gcSoft c.gcHard s r).latest =
+      (if (check (mkChecker c total) c.gcSoft c.gcHard s r).gcRan then r.allocAfterGC else r.alloc) :=
+  have h := C18_no_underflow c total hv hwf ht
+  ⟨C18_refuse_iff _ h.1 h.2 _ _ s r, C18_latest _ _ _ s r⟩
+
+/-- ticks handled by a running checker are exactly a history of checks (ties `runChecks` / `finalState` to the loop) -/
+theorem Sys.run_ticks_on (k : Checker) (gs gh : Int) (rs : List Reading) : ∀ s : Sys, s.rc.checking = true →
+    (Sys.run k gs gh s (rs.map .tick)).st = finalState k gs gh s.st rs ∧
+    (Sys.run k gs gh s (rs.map .tick)).checks = s.checks + rs.length ∧
+    (Sys.run k gs gh s (rs.map .tick)).rc = s.rc := by
+  induction rs with
+  | nil => intro s _; exact ⟨rfl, rfl, rfl⟩
+  | cons r rs ih =>
+    intro s h
+    have hrun : Sys.run k gs gh s ((r :: rs).map .tick) = Sys.run k gs gh (s.step k gs gh (.tick r)) (rs.map .tick) := rfl
+    rewrite [hrun, Sys.step_tick_on k gs gh s r h]
+    obtain ⟨i1, i2, i3⟩ := ih { s with st := (check k gs gh s.st r).st, checks := s.checks + 1 } (by rewrite [upd_rc]; exact h)
+    refine ⟨?_, ?_, ?_⟩
+    · rewrite [i1, upd_st, finalState.eq_2]; rfl
+    · rewrite [i2, upd_checks]; simp only [List.length_cons]; omega
+    · rewrite [i3, upd_rc]; rfl
+
+/-- **reads per window**: while a user is present the loop makes exactly one check per ticker instant of the window,
+and none otherwise (this is what the ref-count harness now compares: check / read / GC *counts* per window) -/
+theorem C18_window_checks (k : Checker) (gs gh : Int) (t : Timed) (ci a b : Int) (alloc after : Nat) :
+    (t.window k gs gh ci a b alloc after).checks = if t.sys.rc.checking then (t.readings ci a b alloc after).length else 0 := by
+  unfold Timed.window
+  simp only []
+  cases hc : t.sys.rc.checking
+  · rewrite [Sys.run_ticks_off k gs gh _ t.sys hc]; simp
+  · rewrite [(Sys.run_ticks_on k gs gh _ t.sys hc).2.1]; simp
+
+example : tickInstants 10 4 11 22 = [14, 18, 22] ∧ tickInstants 10 4 14 17 = [] ∧ tickInstants 0 1000 1500 3000 = [2000, 3000] := by decide
+
 
 end OtelVerif.C18
